@@ -141,6 +141,29 @@ pub fn run() {
     let mut base: u16 = 0;
     let mut snap: u64 = 10000;
     let mut work = tempfile::tempdir().unwrap();
+    // Instance addresses: r-nacos probes every persistent instance by TCP connect from every node and sets its
+    // health from the result. The scenarios' addresses 10.0.0.X:80 are mapped to listening sockets of this process
+    // (and back in the lists), so that the probes succeed and health is a function of the operations alone.
+    let mut inst_ports: Vec<u16> = vec![];
+    for _ in 0..10 {
+        if let Ok(l) = std::net::TcpListener::bind(("127.0.0.1", 0)) {
+            inst_ports.push(l.local_addr().map(|a| a.port()).unwrap_or(0));
+            std::thread::spawn(move || {
+                for c in l.incoming() {
+                    drop(c);
+                }
+            });
+        }
+    }
+    let map_addr = |ip: &str, port: &str, inst_ports: &Vec<u16>| -> (String, String) {
+        match (ip.strip_prefix("10.0.0."), port) {
+            (Some(x), "80") => match x.parse::<usize>().ok().and_then(|k| inst_ports.get(k)) {
+                Some(p) => ("127.0.0.1".to_string(), p.to_string()),
+                None => (ip.to_string(), port.to_string()),
+            },
+            _ => (ip.to_string(), port.to_string()),
+        }
+    };
     for_each_line(|l| {
         if l.starts_with('#') {
             for n in nodes.iter_mut() {
@@ -306,6 +329,7 @@ pub fn run() {
             ["reg", i, svc, ip, port, eph] | ["dereg", i, svc, ip, port, eph] => match idx(i, &nodes) {
                 Some(i) if nodes[i].alive() => {
                     let m = if ws[0] == "reg" { "POST" } else { "DELETE" };
+                    let (ip, port) = map_addr(ip, port, &inst_ports);
                     match http(nodes[i].http, m, &format!("/nacos/v1/ns/instance?serviceName={}&ip={}&port={}&ephemeral={}&healthy=true&enabled=true&weight=1", enc(svc), ip, port, if *eph == "1" { "true" } else { "false" }), 9000) {
                         Some((200, b)) if b.trim() == "ok" => "ok".to_string(),
                         _ => "err".to_string(),
@@ -323,7 +347,16 @@ pub fn run() {
                         match http(nd.http, "GET", &format!("/nacos/v1/ns/instance/list?serviceName={}&healthyOnly=false", enc(svc)), 4000) {
                             Some((200, b)) => match serde_json::from_str::<serde_json::Value>(&b) {
                                 Ok(v) => {
-                                    let mut hosts: Vec<String> = v["hosts"].as_array().cloned().unwrap_or_default().iter().map(|h| format!("{}:{}:{}:{}:{}", h["ip"].as_str().unwrap_or(""), h["port"], h["healthy"], h["enabled"], h["weight"])).collect();
+                                    let mut hosts: Vec<String> = v["hosts"].as_array().cloned().unwrap_or_default().iter().map(|h| {
+                                        let (mut ip, mut port) = (h["ip"].as_str().unwrap_or("").to_string(), h["port"].to_string());
+                                        if ip == "127.0.0.1" {
+                                            if let Some(k) = inst_ports.iter().position(|p| p.to_string() == port) {
+                                                ip = format!("10.0.0.{}", k);
+                                                port = "80".to_string();
+                                            }
+                                        }
+                                        format!("{}:{}:{}:{}:{}", ip, port, h["healthy"], h["enabled"], h["weight"])
+                                    }).collect();
                                     hosts.sort();
                                     if hosts.is_empty() { "-".to_string() } else { hosts.join(",") }
                                 }
